@@ -195,8 +195,26 @@ pub enum SymlinkTarget {
     /// forward slashes, so it can be converted to the destination platform's local path syntax.
     Normalized(String),
     /// A symlink target which we couldn't normalize, e.g. because it is an absolute path.
-    /// This is transferred without any changes.
-    NotNormalized(String)
+    /// This is transferred without any changes, so it is kept as the raw bytes of the target
+    /// (which might not be valid unicode) - see symlink_target_to_bytes/symlink_target_from_bytes.
+    NotNormalized(Vec<u8>)
+}
+
+/// Converts a symlink target which couldn't be normalized to the bytes that are sent to the other side.
+/// On unix these are exactly the bytes of the target, so that nothing is lost even if it isn't valid unicode.
+pub fn symlink_target_to_bytes(target: &std::path::Path) -> Vec<u8> {
+    #[cfg(unix)]
+    return std::os::unix::ffi::OsStrExt::as_bytes(target.as_os_str()).to_vec();
+    #[cfg(not(unix))]
+    return target.to_string_lossy().as_bytes().to_vec();
+}
+
+/// The inverse of symlink_target_to_bytes.
+pub fn symlink_target_from_bytes(bytes: Vec<u8>) -> std::path::PathBuf {
+    #[cfg(unix)]
+    return std::path::PathBuf::from(<std::ffi::OsString as std::os::unix::ffi::OsStringExt>::from_vec(bytes));
+    #[cfg(not(unix))]
+    return std::path::PathBuf::from(String::from_utf8_lossy(&bytes).to_string());
 }
 
 /// Details of a file or folder.
